@@ -55,10 +55,20 @@ class C05(rowgen.RowGenProp):
             events = [call(t0, LOOK_TO), call(go1, GO), call(back, rng.choice([THATS_ALL, ROUNDS])), call(go2, GO)]
             for _ in range(rng.choice([0, 1, 2])):
                 events.append(call(rng.uniform(go1, back), rng.choice([BOB, SINGLE])))
+            pre = None
+            if rng.random() < 0.5:
+                # a Bob or Single called in the rounds between the second Go and the start of the method: it was
+                # made before that start, so the touch must be the plain one (when it turns out to have landed
+                # after the start the oracle makes no claim).  The touch then lasts a whole lead, so that a call
+                # that wrongly survived the start would be seen to act.
+                pre = [go2 + rng.uniform(0.05, 1.9) * row_t, rng.choice([BOB, SINGLE])]
+                events.append(call(pre[0], pre[1]))
             events.sort(key=lambda e: e[0])
-            sc = {"start": 1000.0, "end": go2 + 9 * row_t, "tower_size": N, "events": events,
+            L = len(gens.denote([(p, c) for p, c in spec["_ast"]]))
+            rows_after = 9 if pre is None else min(26, L + 5)
+            sc = {"start": 1000.0, "end": go2 + rows_after * row_t, "tower_size": N, "events": events,
                   "bot": scen.bot_cfg(spec), "rhythm": scen.rhythm_cfg("regression", inertia=1.0, peal_speed=ps)}
-            yield {"k": "world", "scenario": sc, "go2": go2, "t0": t0}
+            yield {"k": "world", "scenario": sc, "go2": go2, "t0": t0, "pre_call": pre}
 
     def impl(self, req):
         if req["k"] == "world":
@@ -95,6 +105,10 @@ class C05(rowgen.RowGenProp):
         m = k + 1
         while (m % 2 == 0) != hand_start:
             m += 1
+        pre = req.get("pre_call")
+        if pre is not None:
+            if m * N - 1 >= len(strikes) or pre[0] >= scen.b2f(strikes[m * N - 1][0]) - 0.0011:
+                return None      # the call did not clearly precede the start of the method
         ast = [(p, c) for p, c in spec["_ast"]]
         fresh = gens.ref_rows(spec["stage"], gens.denote(ast), list(range(1, spec["stage"] + 1)),
                               spec.get("start_index") or 0, 30)
